@@ -1,24 +1,715 @@
-//! Multitree operations and model (C10 / C11). Filled in later.
+//! Multitree operations, model and oracles (C10 / C11 single-thread part).
+
 use crate::exec::Exec;
+use crate::prng::fnv64;
+use crate::structural::{read_stored, TableView};
 use crate::world::*;
+use parity_db::{NewNode, NodeRef, TreeReader};
+use std::collections::{BTreeMap, HashMap, HashSet};
+use std::sync::Arc;
+
+type ReaderArc = Arc<parking_lot::RwLock<Box<dyn TreeReader + Send + Sync>>>;
+
+type ReadGuard = parking_lot::RwLockReadGuard<'static, Box<dyn TreeReader + Send + Sync>>;
+
+/// Runtime (non-model) state of tree columns: address bindings and held reader locks.
+#[derive(Default)]
+pub struct TreeRt {
+	/// model node id -> database address
+	pub addr: HashMap<u64, u64>,
+	/// key index -> (reader, guard, digest of the tree when locked)
+	pub locks: HashMap<usize, (ReaderArc, Option<ReadGuard>, u64)>,
+}
 
 #[derive(Clone, Debug, Default)]
-pub struct ObservedTrees {}
+pub struct ObservedTrees {
+	/// key index -> canonical digest of the whole tree
+	pub roots: BTreeMap<usize, u64>,
+	pub entries: Option<u64>,
+}
 
-pub fn apply_model(_ex: &mut Exec, _col: u8, _op: &TxOp) {}
-pub fn build_new_node(_ex: &mut Exec, _col: u8, _t: &TreeSpec) -> parity_db::NewNode {
-	parity_db::NewNode { data: Vec::new(), children: Vec::new() }
+fn rt<'a>(ex: &'a mut Exec, col: u8) -> &'a mut TreeRt {
+	while ex.tree_rt.len() <= col as usize {
+		ex.tree_rt.push(TreeRt::default());
+	}
+	&mut ex.tree_rt[col as usize]
 }
-pub fn check_all_trees(_ex: &mut Exec, _col: u8) {}
-pub fn observe(_ex: &mut Exec, _col: u8) -> Result<ObservedTrees, String> {
-	Ok(ObservedTrees {})
+
+fn kind_flags(ex: &Exec, col: u8) -> (bool, bool, bool) {
+	match ex.col_kinds[col as usize] {
+		ColKind::Tree { append_only, rc_roots, direct } => (append_only, rc_roots, direct),
+		_ => (false, false, false),
+	}
 }
-pub fn matches(_ex: &Exec, _col: u8, _o: &ObservedTrees, _m: &TreeModel) -> Result<(), String> {
+
+// -- model ------------------------------------------------------------------------------------
+
+fn model_insert(m: &mut TreeModel, spec: &TreeSpec, append_only: bool, resolve: &dyn Fn(&TreeModel, usize, &[u8]) -> Option<u64>) -> Option<TreeNodeM> {
+	let mut children = Vec::new();
+	for c in &spec.children {
+		match c {
+			ChildSpec::New(n) => {
+				let node = model_insert(m, n, append_only, resolve)?;
+				let id = m.next_id;
+				m.next_id += 1;
+				m.nodes.insert(id, (node, 1));
+				children.push(id);
+			},
+			ChildSpec::Existing { root, path } => {
+				let id = resolve(m, *root, path)?;
+				if !append_only {
+					m.nodes.get_mut(&id)?.1 += 1;
+				}
+				children.push(id);
+			},
+		}
+	}
+	Some(TreeNodeM { data: Arc::new(spec.data.bytes()), children })
+}
+
+fn model_dec(m: &mut TreeModel, id: u64) {
+	let remove = match m.nodes.get_mut(&id) {
+		Some(n) =>
+			if n.1 > 1 {
+				n.1 -= 1;
+				false
+			} else {
+				true
+			},
+		None => false,
+	};
+	if remove {
+		if let Some((node, _)) = m.nodes.remove(&id) {
+			for c in node.children {
+				model_dec(m, c);
+			}
+		}
+	}
+}
+
+pub fn resolve_path(m: &TreeModel, keys: &[Vec<u8>], root: usize, path: &[u8]) -> Option<u64> {
+	let r = m.roots.get(keys.get(root)?)?;
+	let mut cur: Option<u64> = None;
+	let mut children = &r.0.children;
+	for p in path {
+		let id = *children.get(*p as usize)?;
+		cur = Some(id);
+		children = &m.nodes.get(&id)?.0.children;
+	}
+	cur
+}
+
+/// Is this tree operation applicable to the current model state (valid commit)?
+pub fn applicable(ex: &Exec, col: u8, op: &TxOp, touched: &HashSet<usize>) -> bool {
+	let (append_only, rc_roots, _) = kind_flags(ex, col);
+	let ColModel::Tree(m) = &ex.cur[col as usize] else { return false };
+	let keys = &ex.col_cfgs[col as usize].keys;
+	match op {
+		TxOp::InsertTree(k, spec) => {
+			if touched.contains(k) || m.roots.contains_key(&keys[*k]) {
+				return false
+			}
+			fn ok(m: &TreeModel, keys: &[Vec<u8>], s: &TreeSpec, touched: &HashSet<usize>, rt: &TreeRt) -> bool {
+				if s.children.len() > 255 {
+					return false
+				}
+				s.children.iter().all(|c| match c {
+					ChildSpec::New(n) => ok(m, keys, n, touched, rt),
+					ChildSpec::Existing { root, path } =>
+						!touched.contains(root) &&
+							!path.is_empty() && resolve_path(m, keys, *root, path).map_or(false, |id| rt.addr.contains_key(&id)),
+				})
+			}
+			let empty = TreeRt::default();
+			let r = ex.tree_rt.get(col as usize).unwrap_or(&empty);
+			ok(m, keys, spec, touched, r)
+		},
+		TxOp::RefTree(k) => !touched.contains(k) && (append_only || (rc_roots && m.roots.contains_key(&keys[*k]))),
+		TxOp::DerefTree(k) => !touched.contains(k) && !append_only && m.roots.contains_key(&keys[*k]),
+		_ => false,
+	}
+}
+
+pub fn apply_model(ex: &mut Exec, col: u8, op: &TxOp) {
+	let (append_only, rc_roots, _) = kind_flags(ex, col);
+	let keys = ex.col_cfgs[col as usize].keys.clone();
+	let ColModel::Tree(m) = &mut ex.cur[col as usize] else { return };
+	match op {
+		TxOp::InsertTree(k, spec) => {
+			let keys2 = keys.clone();
+			let resolve = move |m: &TreeModel, root: usize, path: &[u8]| resolve_path(m, &keys2, root, path);
+			if let Some(node) = model_insert(m, spec, append_only, &resolve) {
+				m.roots.insert(keys[*k].clone(), (node, 1));
+			}
+		},
+		TxOp::RefTree(k) =>
+			if rc_roots && !append_only {
+				if let Some(r) = m.roots.get_mut(&keys[*k]) {
+					r.1 += 1;
+				}
+			},
+		TxOp::DerefTree(k) => {
+			let gone = match m.roots.get_mut(&keys[*k]) {
+				Some(r) =>
+					if r.1 > 1 {
+						r.1 -= 1;
+						false
+					} else {
+						true
+					},
+				None => false,
+			};
+			if gone {
+				if let Some((node, _)) = m.roots.remove(&keys[*k]) {
+					for c in node.children {
+						model_dec(m, c);
+					}
+				}
+			}
+		},
+		_ => {},
+	}
+}
+
+pub fn build_new_node(ex: &mut Exec, col: u8, t: &TreeSpec) -> NewNode {
+	let keys = ex.col_cfgs[col as usize].keys.clone();
+	let empty = TreeRt::default();
+	fn build(m: &TreeModel, keys: &[Vec<u8>], rt: &TreeRt, t: &TreeSpec) -> NewNode {
+		NewNode {
+			data: t.data.bytes(),
+			children: t
+				.children
+				.iter()
+				.map(|c| match c {
+					ChildSpec::New(n) => NodeRef::New(build(m, keys, rt, n)),
+					ChildSpec::Existing { root, path } => {
+						let addr = resolve_path(m, keys, *root, path).and_then(|id| rt.addr.get(&id).cloned()).unwrap_or(0);
+						NodeRef::Existing(addr)
+					},
+				})
+				.collect(),
+		}
+	}
+	let ColModel::Tree(m) = &ex.cur[col as usize] else {
+		return NewNode { data: Vec::new(), children: Vec::new() }
+	};
+	let r = ex.tree_rt.get(col as usize).unwrap_or(&empty);
+	build(m, &keys, r, t)
+}
+
+// -- reading ----------------------------------------------------------------------------------
+
+fn model_digest(m: &TreeModel, node: &TreeNodeM, memo: &mut HashMap<u64, u64>) -> u64 {
+	let mut h = fnv64(0, &node.data);
+	h = fnv64(h, &(node.children.len() as u64).to_le_bytes());
+	for c in &node.children {
+		let d = if let Some(d) = memo.get(c) {
+			*d
+		} else {
+			let d = match m.nodes.get(c) {
+				Some((n, _)) => model_digest(m, n, memo),
+				None => 0xdead,
+			};
+			memo.insert(*c, d);
+			d
+		};
+		h = fnv64(h, &d.to_le_bytes());
+	}
+	h
+}
+
+fn db_digest(reader: &dyn TreeReader, data: &[u8], children: &[u64], memo: &mut HashMap<u64, u64>, depth: u32) -> Result<u64, String> {
+	if depth > 64 {
+		return Err("tree deeper than 64 levels".into())
+	}
+	let mut h = fnv64(0, data);
+	h = fnv64(h, &(children.len() as u64).to_le_bytes());
+	for c in children {
+		let d = if let Some(d) = memo.get(c) {
+			*d
+		} else {
+			let d = match reader.get_node(*c) {
+				Ok(Some((nd, nc))) => db_digest(reader, &nd, &nc, memo, depth + 1)?,
+				Ok(None) => return Err(format!("node at address {c} is missing")),
+				Err(e) => return Err(format!("get_node({c}) failed: {e}")),
+			};
+			memo.insert(*c, d);
+			d
+		};
+		h = fnv64(h, &d.to_le_bytes());
+	}
+	Ok(h)
+}
+
+/// Compare the tree under `k` with the model node-by-node and bind addresses.
+fn check_tree(ex: &mut Exec, col: u8, k: usize) {
+	let key = ex.col_cfgs[col as usize].keys[k].clone();
+	let ColModel::Tree(m) = &ex.cur[col as usize] else { return };
+	let m = m.clone();
+	let expect = m.roots.get(&key).cloned();
+	let all_logged = ex.pipeline_counts().0 == 0;
+	let locked = ex.tree_rt.get(col as usize).map_or(false, |r| r.locks.contains_key(&k));
+	let tree = match ex.db().get_tree(col, &key) {
+		Ok(t) => t,
+		Err(e) => {
+			ex.push_violation("C10", "tree-read-error", format!("get_tree(col {col}, key#{k}) failed: {e}"));
+			return
+		},
+	};
+	ex.stats.reads_checked += 1;
+	match (expect, tree) {
+		(None, None) => {},
+		(None, Some(t)) => {
+			// still there: allowed until the dereference has been written to the log, and
+			// while a reader holds the tree
+			if all_logged && !locked {
+				let g = t.read();
+				if let Ok(Some(_)) = g.get_root() {
+					ex.push_violation("C10", "tree-not-removed", format!("col {col} key#{k}: root still readable although its last reference is gone and every commit is logged"));
+				}
+			}
+		},
+		(Some(_), None) => {
+			ex.push_violation("C10", "tree-missing", format!("col {col} key#{k}: get_tree returned None for a live tree"));
+		},
+		(Some((root, _count)), Some(t)) => {
+			ex.stats.nonempty_reads += 1;
+			let g = t.read();
+			let (data, children) = match g.get_root() {
+				Ok(Some(x)) => x,
+				Ok(None) => {
+					drop(g);
+					ex.push_violation("C10", "tree-missing", format!("col {col} key#{k}: get_root returned None for a live tree"));
+					return
+				},
+				Err(e) => {
+					drop(g);
+					ex.push_violation("C10", "tree-read-error", format!("col {col} key#{k}: get_root failed: {e}"));
+					return
+				},
+			};
+			let mut err: Option<String> = None;
+			let mut binds: Vec<(u64, u64)> = Vec::new();
+			let mut seen: HashSet<u64> = HashSet::new();
+			let empty = TreeRt::default();
+			let bound = &ex.tree_rt.get(col as usize).unwrap_or(&empty).addr;
+			fn walk(
+				g: &dyn TreeReader,
+				m: &TreeModel,
+				node: &TreeNodeM,
+				data: &[u8],
+				children: &[u64],
+				bound: &HashMap<u64, u64>,
+				binds: &mut Vec<(u64, u64)>,
+				seen: &mut HashSet<u64>,
+				err: &mut Option<String>,
+				path: String,
+			) {
+				if err.is_some() {
+					return
+				}
+				if *node.data != data {
+					*err = Some(format!("node {path}: data differs ({} vs {} bytes)", data.len(), node.data.len()));
+					return
+				}
+				if node.children.len() != children.len() {
+					*err = Some(format!("node {path}: {} children read back, {} supplied", children.len(), node.children.len()));
+					return
+				}
+				for (i, (id, addr)) in node.children.iter().zip(children.iter()).enumerate() {
+					if let Some(a) = bound.get(id).or_else(|| binds.iter().find(|b| b.0 == *id).map(|b| &b.1)) {
+						if a != addr {
+							*err = Some(format!("node {path}: child {i} resolves to address {addr}, expected {a}"));
+							return
+						}
+					} else {
+						binds.push((*id, *addr));
+					}
+					if !seen.insert(*id) {
+						continue
+					}
+					let Some((mn, _)) = m.nodes.get(id) else {
+						*err = Some(format!("node {path}/{i}: model node missing (harness)"));
+						return
+					};
+					match g.get_node(*addr) {
+						Ok(Some((nd, nc))) => walk(g, m, mn, &nd, &nc, bound, binds, seen, err, format!("{path}/{i}")),
+						Ok(None) => {
+							*err = Some(format!("node {path}/{i} at address {addr} is missing"));
+							return
+						},
+						Err(e) => {
+							*err = Some(format!("get_node({addr}) for {path}/{i} failed: {e}"));
+							return
+						},
+					}
+				}
+			}
+			walk(&**g, &m, &root, &data, &children, bound, &mut binds, &mut seen, &mut err, format!("key#{k}"));
+			drop(g);
+			if let Some(e) = err {
+				ex.push_violation("C10", "tree-readback-mismatch", format!("col {col}: {e}"));
+			} else {
+				let r = rt(ex, col);
+				for (id, a) in binds {
+					r.addr.insert(id, a);
+				}
+			}
+		},
+	}
+}
+
+pub fn check_all_trees(ex: &mut Exec, col: u8) {
+	let n = ex.col_cfgs[col as usize].keys.len();
+	for k in 0..n {
+		check_tree(ex, col, k);
+	}
+	check_direct_access(ex, col);
+}
+
+/// Columns with direct node access: get_root / get_node without a reader agree with the model.
+fn check_direct_access(ex: &mut Exec, col: u8) {
+	let (append_only, _, direct) = kind_flags(ex, col);
+	if !(append_only || direct) {
+		return
+	}
+	let ColModel::Tree(m) = &ex.cur[col as usize] else { return };
+	let m = m.clone();
+	let keys = ex.col_cfgs[col as usize].keys.clone();
+	for (k, key) in keys.iter().enumerate() {
+		if let Some((root, _)) = m.roots.get(key) {
+			match ex.db().get_root(col, key) {
+				Ok(Some((data, children))) =>
+					if *root.data != data || root.children.len() != children.len() {
+						ex.push_violation("C10", "tree-readback-mismatch", format!("col {col} key#{k}: get_root differs from the inserted root"));
+					},
+				Ok(None) => ex.push_violation("C10", "tree-missing", format!("col {col} key#{k}: get_root returned None for a live tree")),
+				Err(e) => ex.push_violation("C10", "tree-read-error", format!("get_root failed: {e}")),
+			}
+		}
+	}
+}
+
+pub fn after_commit(ex: &mut Exec, tx: &[(u8, TxOp)]) {
+	// bind addresses of freshly inserted trees right away (needed for later Existing refs)
+	for (c, op) in tx {
+		if let TxOp::InsertTree(k, _) = op {
+			check_tree(ex, *c, *k);
+		}
+	}
+}
+
+pub fn after_adopt(ex: &mut Exec) {
+	for r in ex.tree_rt.iter_mut() {
+		r.addr.clear();
+		r.locks.clear();
+	}
+}
+
+fn live_counts(m: &TreeModel) -> u64 {
+	(m.roots.len() + m.nodes.len()) as u64
+}
+
+pub fn observe(ex: &mut Exec, col: u8) -> Result<ObservedTrees, String> {
+	let keys = ex.col_cfgs[col as usize].keys.clone();
+	let mut out = ObservedTrees::default();
+	for (k, key) in keys.iter().enumerate() {
+		match ex.db().get_tree(col, key) {
+			Ok(None) => {},
+			Ok(Some(t)) => {
+				let g = t.read();
+				match g.get_root() {
+					Ok(None) => {},
+					Ok(Some((data, children))) => {
+						let mut memo = HashMap::new();
+						let d = db_digest(&**g, &data, &children, &mut memo, 0).map_err(|e| format!("col {col} key#{k}: {e}"))?;
+						out.roots.insert(k, d);
+					},
+					Err(e) => return Err(format!("get_root(col {col}, key#{k}) failed after recovery: {e}")),
+				}
+			},
+			Err(e) => return Err(format!("get_tree(col {col}, key#{k}) failed after recovery: {e}")),
+		}
+	}
+	out.entries = ex.db().get_num_column_value_entries(col).ok();
+	Ok(out)
+}
+
+pub fn matches(ex: &Exec, col: u8, o: &ObservedTrees, m: &TreeModel) -> Result<(), String> {
+	let keys = &ex.col_cfgs[col as usize].keys;
+	let mut memo = HashMap::new();
+	for (k, key) in keys.iter().enumerate() {
+		let want = m.roots.get(key).map(|(n, _)| model_digest(m, n, &mut memo));
+		let got = o.roots.get(&k).cloned();
+		if want != got {
+			return Err(format!("col {col} tree key#{k}: db {:?}, state {:?}", got.is_some(), want.is_some()))
+		}
+	}
+	let (append_only, _, _) = kind_flags(ex, col);
+	if !append_only {
+		if let Some(e) = o.entries {
+			if e != live_counts(m) {
+				return Err(format!("col {col}: {} value entries, state has {} live nodes+roots", e, live_counts(m)))
+			}
+		}
+	}
 	Ok(())
 }
-pub fn after_adopt(_ex: &mut Exec) {}
-pub fn after_commit(_ex: &mut Exec, _tx: &[(u8, TxOp)]) {}
-pub fn lock_tree(_ex: &mut Exec, _c: u8, _k: usize) {}
-pub fn unlock_tree(_ex: &mut Exec, _c: u8, _k: usize) {}
-pub fn release_all(_ex: &mut Exec) {}
-pub fn forget_all(_ex: &mut Exec) {}
+
+/// Entry-count conservation at a drained point (C10).
+pub fn check_entry_count(ex: &mut Exec, col: u8) {
+	let (append_only, _, _) = kind_flags(ex, col);
+	let ColModel::Tree(m) = &ex.cur[col as usize] else { return };
+	let want = live_counts(m);
+	if append_only {
+		return
+	}
+	if ex.tree_rt.get(col as usize).map_or(false, |r| !r.locks.is_empty()) {
+		return
+	}
+	match ex.db().get_num_column_value_entries(col) {
+		Ok(n) =>
+			if n != want {
+				ex.push_violation(
+					"C10",
+					"entry-count",
+					format!("col {col}: get_num_column_value_entries = {n}, model has {want} live roots+nodes after drain"),
+				);
+			},
+		Err(_) => ex.stats.probe("entry_count_unavailable_multipart"),
+	}
+}
+
+// -- locks (C11, single-threaded deferral) ------------------------------------------------------
+
+pub fn lock_tree(ex: &mut Exec, c: u8, k: usize) {
+	if !ex.col_kinds[c as usize].is_tree() || !ex.has_db() {
+		return
+	}
+	let key = ex.col_cfgs[c as usize].keys[k].clone();
+	if rt(ex, c).locks.contains_key(&k) {
+		return
+	}
+	let ColModel::Tree(m) = &ex.cur[c as usize] else { return };
+	let Some((root, _)) = m.roots.get(&key).cloned() else { return };
+	let mut memo = HashMap::new();
+	let digest = model_digest(m, &root, &mut memo);
+	if let Ok(Some(t)) = ex.db().get_tree(c, &key) {
+		let g = t.read();
+		// The guard borrows the Arc we keep right next to it; dropped before the Arc.
+		let g: ReadGuard = unsafe { std::mem::transmute(g) };
+		rt(ex, c).locks.insert(k, (t.clone(), Some(g), digest));
+		ex.stats.probe("tree_locked");
+	}
+}
+
+pub fn unlock_tree(ex: &mut Exec, c: u8, k: usize) {
+	if let Some(r) = ex.tree_rt.get_mut(c as usize) {
+		if let Some((_t, g, _)) = r.locks.get_mut(&k) {
+			*g = None;
+		}
+		r.locks.remove(&k);
+	}
+}
+
+/// While a reader lock is held the tree must stay complete and unchanged (C11).
+pub fn check_locked(ex: &mut Exec) {
+	for c in 0..ex.tree_rt.len() {
+		let ks: Vec<usize> = ex.tree_rt[c].locks.keys().cloned().collect();
+		for k in ks {
+			let res: Result<u64, String> = {
+				let (_t, g, _) = &ex.tree_rt[c].locks[&k];
+				let g = g.as_ref().unwrap();
+				match g.get_root() {
+					Ok(Some((data, children))) => {
+						let mut memo = HashMap::new();
+						db_digest(&***g, &data, &children, &mut memo, 0)
+					},
+					Ok(None) => Err("root is gone".into()),
+					Err(e) => Err(format!("get_root failed: {e}")),
+				}
+			};
+			let want = ex.tree_rt[c].locks[&k].2;
+			match res {
+				Ok(d) if d == want => {},
+				Ok(_) => ex.push_violation("C11", "locked-tree-changed", format!("col {c} key#{k}: tree content changed while its reader lock is held")),
+				Err(e) => ex.push_violation("C11", "locked-tree-invalidated", format!("col {c} key#{k}: {e} while its reader lock is held")),
+			}
+		}
+	}
+}
+
+pub fn release_all(ex: &mut Exec) {
+	for r in ex.tree_rt.iter_mut() {
+		for (_k, (_t, g, _)) in r.locks.iter_mut() {
+			*g = None;
+		}
+		r.locks.clear();
+	}
+}
+
+pub fn forget_all(ex: &mut Exec) {
+	for r in ex.tree_rt.iter_mut() {
+		for (_k, v) in r.locks.drain() {
+			std::mem::forget(v);
+		}
+	}
+}
+
+pub fn any_locked(ex: &Exec) -> bool {
+	ex.tree_rt.iter().any(|r| !r.locks.is_empty())
+}
+
+// -- structural (C14) -------------------------------------------------------------------------
+
+pub fn structural(
+	dir: &str,
+	ex: &Exec,
+	col: usize,
+	tables: &BTreeMap<u8, TableView>,
+	_free: &HashMap<u8, HashSet<u64>>,
+	out: &mut Vec<(String, String)>,
+) {
+	let (append_only, rc_roots, _) = kind_flags(ex, col as u8);
+	let indexes = crate::structural::load_indexes(dir, col);
+	// reach from roots (keyed entries named by index entries), then children (unkeyed)
+	let mut reached: HashSet<(u8, u64)> = HashSet::new();
+	let mut parents: HashMap<u64, u64> = HashMap::new();
+	let mut stack: Vec<u64> = Vec::new();
+	let mut visited_nodes: HashSet<u64> = HashSet::new();
+	let mut roots = 0u64;
+	let mut leftovers = 0u64;
+	let push_children = |payload: &[u8], parents: &mut HashMap<u64, u64>, stack: &mut Vec<u64>| -> Result<(), String> {
+		if payload.is_empty() {
+			return Err("empty node payload".into())
+		}
+		let n = payload[payload.len() - 1] as usize;
+		if payload.len() < n * 8 + 1 {
+			return Err(format!("node payload of {} bytes cannot hold {n} children", payload.len()))
+		}
+		let base = payload.len() - 1 - n * 8;
+		for i in 0..n {
+			let a = u64::from_le_bytes(payload[base + i * 8..base + i * 8 + 8].try_into().unwrap());
+			*parents.entry(a).or_insert(0) += 1;
+			stack.push(a);
+		}
+		Ok(())
+	};
+	let mut root_addrs: HashSet<(u8, u64)> = HashSet::new();
+	for ix in &indexes {
+		for (_c, _s, _pk, tier, off) in ix.entries() {
+			if !root_addrs.insert((tier, off)) {
+				continue
+			}
+			match read_stored(tables, tier, off, true, rc_roots) {
+				Ok(s) => {
+					roots += 1;
+					for sl in &s.slots {
+						reached.insert(*sl);
+					}
+					if let Err(e) = push_children(&s.payload, &mut parents, &mut stack) {
+						out.push(("tree-structure".into(), format!("col {col}: root at {tier:02x}:{off}: {e}")));
+						return
+					}
+				},
+				Err(_) => leftovers += 1,
+			}
+		}
+	}
+	let _ = leftovers;
+	while let Some(a) = stack.pop() {
+		if !visited_nodes.insert(a) {
+			continue
+		}
+		let (tier, off) = ((a & 0xff) as u8, a >> 8);
+		match read_stored(tables, tier, off, false, rc_roots) {
+			Ok(s) => {
+				for sl in &s.slots {
+					reached.insert(*sl);
+				}
+				if let Err(e) = push_children(&s.payload, &mut parents, &mut stack) {
+					out.push(("tree-structure".into(), format!("col {col}: node at {tier:02x}:{off}: {e}")));
+					return
+				}
+			},
+			Err(e) => {
+				out.push(("tree-dangling-child".into(), format!("col {col}: a live tree references node {tier:02x}:{off}: {e}")));
+				return
+			},
+		}
+	}
+	if let ColModel::Tree(m) = &ex.cur[col] {
+		if m.roots.len() as u64 != roots {
+			out.push(("live-count".into(), format!("col {col}: {roots} roots reachable through the index, model has {}", m.roots.len())));
+		}
+		if !append_only && m.nodes.len() != visited_nodes.len() {
+			out.push((
+				"live-count".into(),
+				format!("col {col}: {} nodes reachable from live roots on disk, model has {}", visited_nodes.len(), m.nodes.len()),
+			));
+		}
+	}
+	if !append_only {
+		// every live slot must be reachable from a live root
+		'outer: for (tier, t) in tables {
+			for idx in 1..t.filled {
+				let e = &t_entry(t, idx);
+				if e.is_empty() {
+					continue
+				}
+				let tomb = e[0] == 0xff && e[1] == 0xff;
+				if !tomb && !reached.contains(&(*tier, idx)) {
+					out.push((
+						"slot-unreachable".into(),
+						format!("col {col} tier {tier:02x}: slot {idx} is neither free nor reachable from a live tree root (leaked node)"),
+					));
+					break 'outer
+				}
+			}
+		}
+		// ref-count files: entry(addr) == number of referencing parents when >= 2, absent otherwise
+		let mut counts: HashMap<u64, u64> = HashMap::new();
+		for bits in 16..=40u8 {
+			let path = format!("{}/refcount_{:02}_{}", dir, col, bits);
+			if !std::path::Path::new(&path).exists() {
+				continue
+			}
+			let sh = crate::simdisk::read_sparse(&path);
+			for (p, pg) in &sh.pages {
+				let _ = p;
+				for i in 0..(crate::simdisk::PAGE / 16) {
+					let a = u64::from_le_bytes(pg[i * 16..i * 16 + 8].try_into().unwrap());
+					let c = u64::from_le_bytes(pg[i * 16 + 8..i * 16 + 16].try_into().unwrap());
+					if a != 0 {
+						counts.insert(a, c);
+					}
+				}
+			}
+		}
+		for a in &visited_nodes {
+			let p = parents.get(a).cloned().unwrap_or(0);
+			let c = counts.get(a).cloned();
+			let ok = if p >= 2 { c == Some(p) } else { c.is_none() || c == Some(p) && p >= 2 };
+			if !ok {
+				out.push((
+					"refcount-mismatch".into(),
+					format!("col {col}: node at address {a} has {p} referencing parents but the ref-count table holds {:?}", c),
+				));
+				break
+			}
+		}
+		for (a, c) in &counts {
+			if !visited_nodes.contains(a) {
+				out.push((
+					"refcount-orphan".into(),
+					format!("col {col}: ref-count table holds count {c} for address {a} which is not a live node"),
+				));
+				break
+			}
+		}
+	}
+}
+
+fn t_entry(t: &TableView, idx: u64) -> Vec<u8> {
+	t.raw_entry(idx).map(|e| e.to_vec()).unwrap_or_default()
+}
